@@ -7,6 +7,7 @@ let sid = function
   | L [A "abs"; i] -> IAbs (sl i)
   | L [A "compact"; p; l] -> ICompact (sl p, sl l)
   | L [A "rel"; s] -> IRel (sl s)
+  | L [A "vocab"; s] -> IVocab (sl s)
   | _ -> raise (Parse_error "sid")
 let rec sval = function
   | L [A "s"; x] -> SStr (sl x)
